@@ -161,6 +161,7 @@ class Check:
         self.notes.append(s)
 
     def add_executor(self, ex):
+        ex.harvested = len(ex.obligations)
         self.functions.update(ex.encoded)
         for k, v in ex.leaf_used.items():
             self.leaf_models[k] = self.leaf_models.get(k, 0) + v
